@@ -60,7 +60,7 @@ impl Prop for C09 {
             Leg {
                 name: "random",
                 kind: LegKind::Random {
-                    cases: tier.pick(1500, 20_000),
+                    cases: tier.pick(25000, 200000),
                 },
                 workers: 16,
                 build: Build::Normal,
